@@ -590,6 +590,7 @@ func first(a, _ []byte) []byte { return a }
 //@   ensures[fresh] fresh(result0) && result1.obj == result0.obj && result1.off == result0.off && result1.len == result0.len && result1.cap == result0.cap
 //@   ensures[len] 1 <= len(result0) && len(result0) <= 8 && cap(result0) == len(result0)
 //@   ensures[frame] frame()
+//@   ensures[allocs_bytes_only] forallref(o, implies(allocated(o) && !old(allocated(o)), atype(o) == 1000))
 //@   assigns B
 //@ func ({Unsigned,Signed,Float}BinaryKey[K]).Restore
 //@   requires 1 <= len(b)
